@@ -123,6 +123,9 @@ type verif17Env struct {
 	results [2]chan error
 	started [2]bool
 	cut     bool // exclude the window written up in FINDINGS.md
+
+	tickDelay int  // 0: symbolic choice, >0: fixed seconds
+	completed bool // the remote peer delivered the pieces once
 }
 
 func verif17NewEnv(cut bool) *verif17Env {
@@ -225,17 +228,39 @@ func (e *verif17Env) applyOne(j int) {
 	p := e.loop.pool[j]
 	e.loop.pool = append(e.loop.pool[:j:j], e.loop.pool[j+1:]...)
 	e.loop.mu.Unlock()
-	if e.cut {
-		switch p.e.(type) {
-		case removeTorrentEvent, preemptionTickEvent:
-			if c := e.ctrl(); c != nil && c.dispatcher.Complete() && len(c.errors) > 0 {
-				// known defect window (FINDINGS.md), checked by VerifDownloadFindingRemovalRace
-				verif.Assume(false)
+	// window of FINDINGS.md: a completed torrent whose waiters have not been
+	// notified yet
+	c0 := e.ctrl()
+	inWindow := false
+	if c0 != nil && c0.dispatcher.Complete() && len(c0.errors) > 0 {
+		// ... and whose completion notice is still waiting to be received
+		e.loop.mu.Lock()
+		for _, q := range e.loop.pool {
+			if ce, ok := q.e.(dispatcherCompleteEvent); ok && ce.dispatcher == c0.dispatcher {
+				inWindow = true
 			}
 		}
+		e.loop.mu.Unlock()
+	}
+	if _, ok := p.e.(preemptionTickEvent); ok && e.tickDelay >= 0 {
+		// the tick arrives some time after the previous events: before / at /
+		// after the 10 s idle limits
+		dt := e.tickDelay
+		if dt == 0 {
+			dt = []int{1, 10, 30}[verif.Choice("tick_after", 3)]
+		}
+		e.clk.Add(time.Duration(dt) * time.Second)
 	}
 	p.accepted <- true
 	p.e.apply(e.st)
+	if e.cut && inWindow && e.ctrl() != c0 {
+		switch p.e.(type) {
+		case removeTorrentEvent, preemptionTickEvent:
+			// the control was removed inside the window: known defect, checked
+			// by VerifDownloadFindingRemovalRace
+			verif.Assume(false)
+		}
+	}
 	e.noteNotices()
 	e.settle()
 }
@@ -247,10 +272,19 @@ func (e *verif17Env) poolLen() int {
 }
 
 // finish drains the pool in arbitrary order (the loop is live: it eventually
-// receives every blocked sender) and states the property for every caller.
+// receives every blocked sender), then lets the periodic preemption tick come
+// once more long after everything else (fairness: ticks never stop while the
+// scheduler runs), and states the property for every caller.
 func (e *verif17Env) finish() {
 	for e.poolLen() > 0 {
 		e.applyOne(verif.Choice("drain", e.poolLen()))
+	}
+	if !e.loop.stopped {
+		e.tickDelay = 30
+		e.startTick()
+		for e.poolLen() > 0 {
+			e.applyOne(verif.Choice("drain", e.poolLen()))
+		}
 	}
 	for i := range e.results {
 		if !e.started[i] {
@@ -279,41 +313,58 @@ func (e *verif17Env) finish() {
 	}
 }
 
-// run explores: first Download, then up to n further actions, interleaved in
-// every way with the loop applying pending events in every order.
-func (e *verif17Env) run(n int) {
+// run: all callers start at once and block in send (as real callers do on the
+// unbuffered event channel); the loop then receives them in every order, and
+// the remote peer may complete the torrent between any two events (its
+// completion notice then joins the blocked senders).
+//   withD2: a second Download of the same blob
+//   x: 0 nothing else, 1 RemoveTorrent, 2 preemption tick, 3 Stop
+func (e *verif17Env) run() {
 	verif.Option("max_preempt", 0)
+	verif.Option("max_threads", 24)
+	// Senders, waiters and helper goroutines only interact through the pool
+	// and the result channels; the order in which the loop receives them is
+	// the explicit Choice below, so the order in which parked goroutines are
+	// resumed carries no further behaviour.
+	verif.Option("sched_fixed", 1)
+	withD2 := verif.Choice("second_download", 2) == 1
+	x := verif.Choice("other_event", 4)
 	e.startDownload(0)
-	used := [5]bool{}
-	for step := 0; step < n; step++ {
-		// choice: 0..4 start an action, 5.. apply pool[c-5]
-		c := verif.Choice("step", 5+e.poolLen())
-		if c >= 5 {
-			e.applyOne(c - 5)
+	if withD2 {
+		e.startDownload(1)
+	}
+	switch x {
+	case 1:
+		e.startRemove()
+	case 2:
+		e.startTick()
+	case 3:
+		e.startShutdown()
+	}
+	for step := 0; step < 8; step++ {
+		n := e.poolLen()
+		c := e.ctrl()
+		canComplete := !e.completed && !e.loop.stopped && c != nil && !c.dispatcher.Complete()
+		if n == 0 {
+			if !canComplete || verif.Choice("complete_at_end", 2) == 0 {
+				break
+			}
+			e.completeTorrent()
+			e.completed = true
 			continue
 		}
-		if used[c] {
-			verif.Assume(false)
+		k := n
+		if canComplete {
+			k++
 		}
-		used[c] = true
-		switch c {
-		case 0:
-			e.startDownload(1)
-		case 1:
-			e.startRemove()
-		case 2:
-			// symbolic clock position relative to the idle limits
-			dt := verif.IntRange("tick_after_seconds", 0, 30)
-			e.clk.Add(time.Duration(dt) * time.Second)
-			e.startTick()
-		case 3:
-			e.startShutdown()
-		case 4:
-			if !e.completeTorrent() {
-				verif.Assume(false)
-			}
+		j := verif.Choice("next", k)
+		if j == n {
 			verif.Reach("torrent-completed-by-peer")
+			e.completeTorrent()
+			e.completed = true
+			continue
 		}
+		e.applyOne(j)
 	}
 	e.finish()
 }
@@ -323,14 +374,14 @@ func (e *verif17Env) run(n int) {
 func VerifDownloadReturnsOnce() {
 	verif.Note("applying a removal (manual or idle) while a completed torrent still has un-notified waiters is cut here; see VerifDownloadFindingRemovalRace")
 	e := verif17NewEnv(true)
-	e.run(verif.Bound("steps", 5, 7))
+	e.run()
 }
 
 // VerifDownloadFindingRemovalRace: the same exploration without the cut. Fires
 // on the current tree (FINDINGS.md): Download hangs.
 func VerifDownloadFindingRemovalRace() {
 	e := verif17NewEnv(false)
-	e.run(verif.Bound("steps_finding", 4, 6))
+	e.run()
 }
 
 // VerifDownloadNotFound: a blob the archive does not know returns not-found
